@@ -73,7 +73,7 @@ def make(case):
     m = snxgen.model(case['nstn'], case['soln'], case['vel'], case.get('blockdiag', False))
     d = workdir()
     path = os.path.join(d, 'in.snx')
-    snxgen.write(path, m, case['tri'])
+    snxgen.write(path, m, case['tri'], extra=bool(case.get('extra')))
     p = snxgen.parse(path)
     pl = snxgen.param_list(m)
     if p['npar'] != len(pl) or [e['value'] for e in p['est']] != m['est'] or not np.array_equal(p['Q'], m['Q']) or p['vel'] != m['vel']:
@@ -190,7 +190,7 @@ def configs(tier):
                     continue
                 if n == 12 and vel:
                     continue
-                out.append({'nstn': n, 'soln': 1 + k % 3, 'vel': vel, 'tri': tri})
+                out.append({'nstn': n, 'soln': 1 + k % 3, 'vel': vel, 'tri': tri, 'extra': k % 3 == 1})
                 k += 1
     return out
 
